@@ -31,6 +31,11 @@ def cases(tier):
     add("manager-write", CI + 1, 0)
     add("manager-delete", 0, 2 * CD + 1)
     add("rest-patch", 2, 1, crash=True)
+    # ... and through the API handlers: a request larger than one insert batch whose LAST insert names an unknown namespace,
+    # and a valid one with a failing statement at each of its first ten positions
+    for via in ("grpc-transact", "rest-patch"):
+        add(via, CI + 1, 2, badins=CI + 1, badhow="unknownns", maxk=4)
+        add(via, CI + 1, CD + 1, maxk=10)
     if tier == "thorough":
         for via in vias:
             add(via, CI, CD)
